@@ -26,7 +26,7 @@ type c06Case struct {
 	req     *big.Int
 }
 
-func c06Base(name string, wrkRec, bcnRec uint64, govFees bool) *Scenario {
+func c06Base(name string, wrkRec, bcnRec uint64, govFees bool, failedGov ...bool) *Scenario {
 	g := BaseGenesis(
 		mc.AcctSpec{Name: "S1", Coins: Coins(1000, 0)},
 		mc.AcctSpec{Name: "WR", Coins: Rich()},
@@ -53,6 +53,14 @@ func c06Base(name string, wrkRec, bcnRec uint64, govFees bool) *Scenario {
 	}
 	s.Actions = append(s.Actions, raise("WL", 50, 1), decide("S1", 1, 2), Action{Name: "wait(1s)", Dt: time.Second})
 	s.Prefix = append(s.Prefix, "raise(WL,50)", "accept(S1,#1)", "wait(1s)", "wait(1s)")
+	if len(failedGov) > 0 && failedGov[0] {
+		// proposals that pass the vote and are rolled back when executed: the fees in force stay as they were
+		a := failing(govOnce("gov(bcn:fees=1/1/1)+failing-msg", model.BcnParams, model.AnchorParams{FeeReg: 1, FeeRec: 1, FeePur: 1, Denom: mc.Nund, Default: 2, Max: 4}))
+		b := failing(govOnce("gov(wrk:fees=1/1/1)+failing-msg", model.WrkParams, model.AnchorParams{FeeReg: 1, FeeRec: 1, FeePur: 1, Denom: mc.Nund, Default: 2, Max: 4}))
+		a.Enabled, b.Enabled = nil, nil
+		s.Actions = append(s.Actions, a, b)
+		s.Prefix = append(s.Prefix, a.Name, b.Name)
+	}
 	if govFees {
 		s.Actions = append(s.Actions,
 			govOnce("gov(wrk:fees=11/4/6)", model.WrkParams, model.AnchorParams{FeeReg: 11, FeeRec: 4, FeePur: 6, Denom: mc.Nund, Default: 2, Max: 4}))
@@ -186,7 +194,7 @@ func c06Extra(t Tier, ev *Evidence) []Violation {
 	if t == Thorough {
 		maxLen = 4
 	}
-	bases := []*Scenario{c06Base("fees-primes", 2, 5, false), c06Base("fees-equal-record", 5, 5, false), c06Base("fees-after-gov", 2, 5, true)}
+	bases := []*Scenario{c06Base("fees-primes", 2, 5, false), c06Base("fees-equal-record", 5, 5, false), c06Base("fees-after-gov", 2, 5, true), c06Base("fees-after-failed-gov", 2, 5, false, true)}
 	bySig := map[string]Violation{}
 	total, admitted, distinct := 0, 0, 0
 	hist := map[string]int{}
@@ -363,7 +371,7 @@ func c06Extra(t Tier, ev *Evidence) []Violation {
 	ev.Coverage["admitted"] = admitted
 	ev.Coverage["outcomes"] = hist
 	ev.Coverage["exhaustive"] = exhaustive
-	ev.Coverage["rule"] = fmt.Sprintf("from %d base states (three payer classes: rich, liquid<fee<=liquid+locked, poor; three fee-parameter sets incl. one changed by governance): all message sequences of length <= %d over %v x wrapping {top, all nested in MsgExec, first nested} x offered {absent, required-1, required, required+1, every proper subset sum of the per-message fees} x extra denom {no, yes} x CheckTx mode {new, recheck}; one real CheckTx each; distinct = distinct (wrapping, sequence, offered-vs-required, payer, extra) classes", len(bases), maxLen, c06Alphabet)
+	ev.Coverage["rule"] = fmt.Sprintf("from %d base states (three payer classes: rich, liquid<fee<=liquid+locked, poor; four fee histories incl. one changed by governance and one where governance proposals changing the fees were rolled back): all message sequences of length <= %d over %v x wrapping {top, all nested in MsgExec, first nested} x offered {absent, required-1, required, required+1, every proper subset sum of the per-message fees} x extra denom {no, yes} x CheckTx mode {new, recheck}; one real CheckTx each; distinct = distinct (wrapping, sequence, offered-vs-required, payer, extra) classes", len(bases), maxLen, c06Alphabet)
 	ev.Coverage["samples"] = samples
 	if admitted == 0 {
 		fmt.Fprintln(os.Stderr, "WARNING C06: no transaction was admitted at all; the one-sided oracle is vacuous on this tree")
